@@ -62,3 +62,13 @@ Theorem C07_crash_correspondence_sound : forall c setup prog events seen0 inflig
     outcomes_match_upto (c_done (cl cf 0)) seen0 inflight = true /\ disk_matches cf final = true.
 Proof. exact crash_check_sound. Qed.
 Print Assumptions C07_crash_correspondence_sound.
+
+From DC Require Import Val DiskBase SqlBase Gen_Disk Disk Cache Refs Txn TxnBlock TxnBlockFacts.
+
+(* the crash variant of the same defect (finding C07-F1) on the real bodies: `set k BIG; with transact: set k 5; <kill>`
+   killed after the inner set released the old file and before the COMMIT: SQLite rolls the row back, the lock is
+   free, and the committed row refers to a file that no longer exists *)
+Theorem C07_kill_in_block_refuted :
+  lock w3_final = None /\ length (rows (db w3_final)) = 1%nat /\ dangling w3_final = true.
+Proof. exact kill_in_block_loses_file_real. Qed.
+Print Assumptions C07_kill_in_block_refuted.
